@@ -292,7 +292,10 @@ def Mid.reviseFc1 (ms : Mid) (e : Fc1Elem) (rev : Fc1) : Mid :=
     else { d with e := e, revision := some rev }
 
 def Mid.resolveFc1 (ms : Mid) (e : Fc1Elem) (valid : Bool) : Mid :=
-  let ms := ms.putFc1 e.id fun d => { d with e := e, resolved := true, valid := valid }
+  let ms := ms.putFc1 e.id fun d =>
+    -- a contract revised earlier in the block keeps its pre-block element
+    if d.revision.isSome then { d with resolved := true, valid := valid }
+    else { d with e := e, resolved := true, valid := valid }
   { ms with spends := e.id :: ms.spends }
 
 def Mid.createFc2 (ms : Mid) (id : Id) (fc : Fc2) : VM Mid := do
@@ -441,14 +444,31 @@ deriving Repr, DecidableEq, Inhabited
 
 -- ---------------------------------------------------------------- element lookups (state.go)
 
-def Mid.scElement (ms : Mid) (ts : Supp1) (id : Id) : Option ScElem :=
+/-- the in-block diff of kind siacoin recorded under `id`, if any: `ms.elements` is shared by all
+kinds, so the index is used only when it is in range and the diff found there carries `id` -/
+def Mid.scDiff? (ms : Mid) (id : Id) : Option ScDiff :=
   match ms.lookup id with
-  | some i => some (ms.sces.getD i default).e
+  | some i => if i < ms.sces.length ∧ (ms.sces.getD i default).e.id = id then some (ms.sces.getD i default) else none
+  | none => none
+
+def Mid.sfDiff? (ms : Mid) (id : Id) : Option SfDiff :=
+  match ms.lookup id with
+  | some i => if i < ms.sfes.length ∧ (ms.sfes.getD i default).e.id = id then some (ms.sfes.getD i default) else none
+  | none => none
+
+def Mid.fc1Diff? (ms : Mid) (id : Id) : Option Fc1Diff :=
+  match ms.lookup id with
+  | some i => if i < ms.fces.length ∧ (ms.fces.getD i default).e.id = id then some (ms.fces.getD i default) else none
+  | none => none
+
+def Mid.scElement (ms : Mid) (ts : Supp1) (id : Id) : Option ScElem :=
+  match ms.scDiff? id with
+  | some d => some d.e
   | none => ts.scIns.find? (·.id = id)
 
 def Mid.sfElement (ms : Mid) (ts : Supp1) (id : Id) : Option SfElem :=
-  match ms.lookup id with
-  | some i => some (ms.sfes.getD i default).e
+  match ms.sfDiff? id with
+  | some d => some d.e
   | none => ts.sfIns.find? (·.id = id)
 
 def Fc1Diff.current (d : Fc1Diff) : Fc1Elem :=
@@ -457,17 +477,17 @@ def Fc1Diff.current (d : Fc1Diff) : Fc1Elem :=
   | none => d.e
 
 def Mid.fc1Element (ms : Mid) (ts : Supp1) (id : Id) : Option Fc1Elem :=
-  match ms.lookup id with
-  | some i => some (ms.fces.getD i default).current
+  match ms.fc1Diff? id with
+  | some d => some d.current
   | none =>
     match ts.revised.find? (·.id = id) with
     | some e => some e
     | none => (ts.proofs.find? (·.1.id = id)).map (·.1)
 
 def Mid.windowId (ms : Mid) (ts : Supp1) (id : Id) (parentBlockId : Id) : Option Id :=
-  match ms.lookup id with
-  | some i =>
-    if (ms.fces.getD i default).e.fc.windowStart = ms.base.child then some parentBlockId
+  match ms.fc1Diff? id with
+  | some d =>
+    if d.e.fc.windowStart = ms.base.child then some parentBlockId
     else (ts.proofs.find? (·.1.id = id)).map (·.2)
   | none => (ts.proofs.find? (·.1.id = id)).map (·.2)
 
